@@ -20,16 +20,16 @@ import (
 // kind of a variable (mutex / channel / map / function literal) is read off its initialiser.
 
 type vtWalker struct {
-	w      *world
-	vars   map[*ast.Object]bool          // variables declared at the top level of the Run body
-	mutex  map[*ast.Object]bool          // … initialised with &sync.Mutex{} / sync.Mutex{}
-	chans  map[*ast.Object]bool          // … initialised with make(chan …) (synchronisation objects)
-	maps   map[*ast.Object]bool          // … initialised with make(map…)
-	lits   map[*ast.Object]*ast.FuncLit  // … bound to a function literal
-	locks  map[string]bool
-	fnName string
-	rows   []row
-	calls  []call
+	w        *world
+	vars     map[*ast.Object]bool         // variables declared at the top level of the Run body
+	mutex    map[*ast.Object]bool         // … initialised with &sync.Mutex{} / sync.Mutex{}
+	chans    map[*ast.Object]bool         // … initialised with make(chan …) (synchronisation objects)
+	maps     map[*ast.Object]bool         // … initialised with make(map…)
+	lits     map[*ast.Object]*ast.FuncLit // … bound to a function literal
+	locks    map[string]bool
+	fnName   string
+	rows     []row
+	calls    []call
 	seenCall map[string]bool
 }
 
